@@ -14,6 +14,8 @@
   `GUARDS` lists states/operations that hit defects already reported; `fail()` gives
   failures inside such a territory (guard lifted) the signature
   [property, "known-defect", guard]; `lifted_guards(prop)` reads known_findings.json.
+* two writers: `gen_writers(rng, model, names)` (independent operations for two actors),
+  `install_index_seam()` (scheduling points at the git index file operations).
 * determinism helpers: `relativise_log` (scratch paths and random name parts out of the
   event log), `settle_randomness`, `quiet`.
 
@@ -145,6 +147,10 @@ GUARDS = {
     # disk but holds no tracked file any more raises KeyError (resolve_duplicate ->
     # cancel_creation of the existing directory)
     "git_revert_untracked_dir": True,
+    # git: GitRevisionTree.is_versioned / has_filename of a path below something that is a
+    # file in that revision raises dulwich NotTreeError (only NoSuchFile is handled);
+    # rename_one(after) / the "already moved" mode ask the basis tree about the target
+    "git_basis_lookup_below_blob": False,  # fixed in /repo 08bff96: territory always explored
 }
 
 
@@ -630,8 +636,11 @@ class MTree:
             if any(q not in self.inv and self.disk[q][0] != DIR for q in [p] + self.disk_below(p)):
                 raise Unmodelled()  # unversioned files below p
             added, deleted, modified = self._git_delta()
-            if any(inside(p, q) for q in added) and (deleted or modified):
-                raise Unmodelled()  # "changed" depends on guessed renames
+            # "changed" depends on guessed renames / copies: a new path, or one whose kind
+            # changed (reported as delete + add), may be paired with a vanished or modified one
+            tg = [q for q in added if inside(p, q)] + [q for q in modified if inside(p, q) and self.dkind(q) not in (None, self.basis[q][1])]
+            if tg and (deleted or [q for q in modified if q not in tg]):
+                raise Unmodelled()
         # not forced: what is changed or unknown is kept under a backup name
         files = sorted([q for q in [p] + self.disk_below(p) if self.is_versioned(q)], reverse=True)
         changed = set()
@@ -672,9 +681,60 @@ class MTree:
                     self.disk_remove(q)
         return "ok"
 
+    def _git_basis_lookup(self, b):
+        if "git_basis_lookup_below_blob" in self.guards and any(x in self.basis for x in ancestors(b) if x):
+            raise Unmodelled("git_basis_lookup_below_blob")
+
+    def _rename_after(self, a, b, op):
+        """rename_one / move with after=True: only the versioned layer changes; the disk is
+        taken as the user left it."""
+        if inside(b, a):
+            raise Unmodelled()
+        b_on = b in self.disk
+        if self.flavour == "bzr":
+            if a not in self.inv:
+                if a in self.basis:
+                    raise Unmodelled()  # rename_one resurrects basis entries
+                return "error"
+            par = self.inv.get(parent(b))
+            if par is not None and par[1] != DIR:
+                raise Unmodelled()
+            replace = False
+            if b in self.inv:
+                # allowed only when the occupant is newly added (its file id is unknown to
+                # the basis) - and never by move()
+                if op["o"] == "move" or self.inv[b][0] in self.basis_ids():
+                    return "error"
+                replace = True
+            if not b_on:
+                return "error"  # "New file has not been created yet"
+            if par is None:
+                return "error"  # target directory is not versioned
+            if replace:
+                self.unversion(b)
+            self.inv_move(a, b)
+            return "ok"
+        # git: the index entry is re-created from what is on disk at the target
+        if a not in self.inv:
+            raise Unmodelled()  # accepted silently (the missing index entry is ignored)
+        if not b_on:
+            return "error"
+        self._git_basis_lookup(b)
+        if b in self.basis or any(strictly_inside(b, q) for q in self.basis):
+            return "error"  # AlreadyVersioned, decided by path in the basis
+        if self.dkind(b) == DIR or self.dkind(parent(b)) != DIR:
+            raise Unmodelled()
+        if any(x in self.inv for x in ancestors(b)) or self.inv_below(b):
+            raise Unmodelled()  # the index would hold b and b/x
+        del self.inv[a]
+        self.inv[b] = (None, self.dkind(b))
+        return "ok"
+
     def _rename(self, a, b, op):
         if a == "" or b == "" or inside(a, b):
             raise Unmodelled()
+        if op.get("after"):
+            return self._rename_after(a, b, op)
         a_on, b_on = a in self.disk, b in self.disk
         if self.flavour == "bzr":
             if a not in self.inv:
@@ -718,6 +778,7 @@ class MTree:
         if any(x in self.inv for x in ancestors(b)):
             raise Unmodelled()
         if not a_on:
+            self._git_basis_lookup(b)
             # already moved by the user: only simple files are modelled
             if a not in self.inv or self.dkind(b) == DIR or b in self.basis or any(strictly_inside(b, q) for q in self.basis):
                 raise Unmodelled()
@@ -1174,6 +1235,7 @@ DEFAULT_WEIGHTS = {
     "remove": 2,
     "rename": 4,
     "move": 3,
+    "rename_after": 2,
     "chmod": 1,
     "symlink": 1,
     "kindchange": 1,
@@ -1306,6 +1368,8 @@ class Gen:
                 cands = [p for p in self.names if not inside(a, p) and not m.is_versioned(p) and p in m.disk]
             b = self.pick(cands)
             return b and {"o": "rename", "p": a, "to": b}
+        if kind == "rename_after":
+            return self.rename_after()
         if kind == "move":
             a = self.pick_source()
             if not a:
@@ -1335,11 +1399,36 @@ class Gen:
             return self.illegal()
         raise KeyError(kind)
 
+    def rename_after(self, want=None):
+        """rename_one / move with after=True.  Targets of every sort are proposed: a path
+        occupied by a committed entry that was moved there, by a just-added entry, by an
+        unversioned (removed or unknown) file; `want` = classification asked for."""
+        m, rng = self.m, self.rng
+        vs = [p for p in m.inv if p]
+        a = self.pick(vs)
+        if not a:
+            return None
+        bids = m.basis_ids() if m.flavour == "bzr" else {}
+        moved = [p for p in vs if p != a and p in m.disk and ((m.flavour == "bzr" and m.inv[p][0] in bids and bids[m.inv[p][0]] != p) or (m.flavour == "git" and p not in m.basis))]
+        added = [p for p in vs if p != a and p in m.disk and m.flavour == "bzr" and m.inv[p][0] not in bids]
+        unv = [p for p in m.disk if not m.is_versioned(p) and m.dkind(p) != DIR]
+        pools = [x for x in (moved, moved, added, unv, unv) if x]
+        if not pools:
+            return None
+        b = self.pick([p for p in rng.choice(pools) if not inside(a, p) and not inside(p, a)])
+        if not b:
+            return None
+        if posixpath.basename(a) == posixpath.basename(b) and rng.random() < 0.5 and parent(b) != parent(a):
+            return {"o": "move", "p": a, "to": parent(b), "after": 1}
+        return {"o": "rename", "p": a, "to": b, "after": 1}
+
     def illegal(self):
         """An operation the model says must be refused (classify == 'error')."""
         m, rng = self.m, self.rng
-        choice = rng.choice(["add_missing", "add_orphan", "rename_unversioned", "rename_onto", "rename_both", "rename_into_unversioned", "mkdir_exists", "commit_unversioned", "move_unversioned_dir"])
+        choice = rng.choice(["rename_after", "rename_after", "add_missing", "add_orphan", "rename_unversioned", "rename_onto", "rename_both", "rename_into_unversioned", "mkdir_exists", "commit_unversioned", "move_unversioned_dir"])
         free = [p for p in self.names if p not in m.disk and not m.is_versioned(p)]
+        if choice == "rename_after":
+            return self.rename_after()
         if choice == "add_missing":
             p = self.pick(free)
             return p and {"o": "add", "p": p, "id": "f%d" % self.fresh()}
@@ -1416,7 +1505,7 @@ def gen_ops(rng, model, n, weights, names=None):
         if not op:
             continue
         c = model.classify(op)
-        if kind == "illegal":
+        if kind == "illegal" or (kind == "rename_after" and c == "error"):
             if c != "error":
                 continue
             op["bad"] = 1
@@ -1458,6 +1547,128 @@ def settle_randomness(seed):
 
     tempfile._get_candidate_names().rng  # noqa: B018 - property with the side effect
     batch._reseed(seed)
+
+
+def install_index_seam():
+    """Scheduling points at the file operations of the git index (idempotent): creation of
+    index.lock (dulwich GitFile), reading the index (Index), and the commit / abort of the
+    lock file.  Only active while a Sim runs several actors; otherwise a plain pass-through.
+    (bzr trees need nothing: their checkout lock lives on the sim+file:// transport.)"""
+    import breezy.git.workingtree as gw
+
+    from simkit.sim import CTX
+
+    if getattr(gw.GitFile, "_verif_seam", False):
+        return
+    real_gitfile, real_index = gw.GitFile, gw.Index
+
+    def multi_sim():
+        s = getattr(CTX, "sim", None)
+        return s if s is not None and s.multi else None
+
+    class LockFileProxy:
+        def __init__(self, f):
+            self.__dict__["_f"] = f
+            self.__dict__["_done"] = False
+
+        def __getattr__(self, name):
+            return getattr(self._f, name)
+
+        def _finish(self, op, fn):
+            s = None if self._done else multi_sim()
+            self.__dict__["_done"] = True
+            if s is not None:
+                s.before_op(op, "index", True)
+            r = fn()
+            if s is not None:
+                s.after_op(op, "index")
+            return r
+
+        def close(self):
+            return self._finish("index.commit", self._f.close)
+
+        def abort(self):
+            return self._finish("index.abort", self._f.abort)
+
+    def gitfile(path, mode="rb", *a, **kw):
+        s = multi_sim() if "w" in mode and os.path.basename(path) == "index" else None
+        if s is None:
+            return real_gitfile(path, mode, *a, **kw)
+        s.before_op("index.lock", "index", True)
+        f = real_gitfile(path, mode, *a, **kw)  # FileLocked when another writer holds it
+        s.after_op("index.lock", "index")
+        return LockFileProxy(f)
+
+    def index(path, *a, **kw):
+        s = multi_sim()
+        if s is not None:
+            s.before_op("index.read", os.path.basename(str(path)), False)
+        r = real_index(path, *a, **kw)
+        if s is not None:
+            s.after_op("index.read", os.path.basename(str(path)))
+        return r
+
+    gitfile._verif_seam = True
+    gw.GitFile = gitfile
+    gw.Index = index
+
+
+WRITER_OPS = ("add", "rename", "remove")
+
+
+def op_paths(op):
+    return [op["p"]] + ([op["to"]] if "to" in op else [])
+
+
+def independent(op, others):
+    """No path of `op` is at, below or above a path of any of `others`: such operations
+    commute, so every serial order of a set of them gives the same tree."""
+    for o in others:
+        for x in op_paths(op):
+            for y in op_paths(o):
+                if inside(x, y) or inside(y, x):
+                    return False
+    return True
+
+
+def gen_writers(rng, model, names):
+    """Scripts for two writers on one tree: 1-3 operations each (add / rename_one /
+    remove --keep), pairwise independent and valid in the state `model` (which is
+    advanced).  None when the state does not offer enough."""
+    g = Gen(rng, model, names)
+    g.n = 500  # content / id numbers of the writers' phase
+    cands = []
+    for p in sorted(model.disk):
+        if not model.is_versioned(p) and model.dkind(p) != DIR:
+            cands.append({"o": "add", "p": p, "id": "w%d" % g.fresh()})
+    for p in sorted(model.versioned_paths()):
+        if not p:
+            continue
+        cands.append({"o": "remove", "p": p, "keep": True, "force": False})
+        if p in model.disk:
+            free = [n for n in "abcde" if n not in model.disk and not model.is_versioned(n)]
+            if free:
+                cands.append({"o": "rename", "p": p, "to": rng.choice(free)})
+    rng.shuffle(cands)
+    scripts = {"A": [], "B": []}
+    chosen = []
+    want = {"A": rng.randint(1, 3), "B": rng.randint(1, 3)}
+    turn = 0
+    for op in cands:
+        name = "AB"[turn % 2]
+        if len(scripts[name]) >= want[name]:
+            name = "AB"[(turn + 1) % 2]
+            if len(scripts[name]) >= want[name]:
+                break
+        if not independent(op, chosen) or model.classify(op) != "ok":
+            continue
+        model.apply(op)
+        scripts[name].append(op)
+        chosen.append(op)
+        turn += 1
+    if not scripts["A"] or not scripts["B"]:
+        return None
+    return scripts
 
 
 def tree_url(root, flavour):
@@ -1724,9 +1935,15 @@ def apply_op(tree, model, op):
     elif o == "remove":
         tree.remove([op["p"]], keep_files=op["keep"], force=op["force"])
     elif o == "rename":
-        tree.rename_one(op["p"], op["to"])
+        if op.get("after"):
+            tree.rename_one(op["p"], op["to"], after=True)
+        else:
+            tree.rename_one(op["p"], op["to"])
     elif o == "move":
-        tree.move([op["p"]], op["to"])
+        if op.get("after"):
+            tree.move([op["p"]], op["to"], after=True)
+        else:
+            tree.move([op["p"]], op["to"])
     elif o == "commit":
         kw = {"rev_id": op["rev"].encode()} if model.flavour == "bzr" else {}
         tree.commit(
